@@ -65,4 +65,13 @@ def deserializeUtxoEntryV0 (C : Curve) (ser : List UInt8) : Outcome (List (Nat Ã
 /-- `outpointKey`: the utxo set database key `<32-byte hash><VLQ output index>`. -/
 def outpointKey (hash : List UInt8) (index : Nat) : List UInt8 := copyInto 32 hash ++ putVLQ index
 
+/-- `readBlockTree` (legacy v1 block index migration, upgrade.go) on one row
+`<12-byte block location><80-byte header>â€¦`: the header bytes and its prev-block field, or an error for
+a row shorter than 92 bytes (after the `fix:` commit; the slice panicked before). -/
+def readV1BlockRow (row : List UInt8) : Outcome (List UInt8 Ã— List UInt8) :=
+  if row.length < 92 then .err else
+  match slice row 12 92 with
+  | none => .panic
+  | some hb => .ok (hb, (hb.drop 4).take 32)
+
 end BV.C15
